@@ -402,10 +402,12 @@ static int compare_dests (const ProgSpec *ps, const RunCfg *cfg, const RunSetup 
                 uint64_t x = (vx >> (8 * fs * l)) & ref_mask (fs), y = (vy >> (8 * fs * l)) & ref_mask (fs);
                 uint64_t mn = fs == 4 ? 0x00800000ULL : 0x0010000000000000ULL, am = fs == 4 ? 0x7fffffffULL : 0x7fffffffffffffffULL;
                 if (x == y) continue;
+                if (fs == 4 ? (ref_isnan32 ((uint32_t) x) && ref_isnan32 ((uint32_t) y)) : (ref_isnan64 (x) && ref_isnan64 (y))) continue;   /* NaN class */
                 anyd = 1;
                 if (!((((x & am) == 0 && (y & am) == mn) || ((y & am) == 0 && (x & am) == mn)) && ((x ^ y) & ~am) == 0)) allb = 0;
               }
               if (anyd && allb) snprintf (f->sub, sizeof f->sub, "ftz-boundary");
+              if (!anyd) { o += a->esz - 1 - (size_t) (rel % a->esz); continue; }   /* every differing lane is NaN on both sides */
             }
           }
           snprintf (f->what, sizeof f->what, "%s[row %ld][%ld]: %s=%#llx %s=%#llx", ps->vars[a->var].name, row, el,
@@ -549,7 +551,14 @@ static int run_one (OrcProgram *p, ProgSpec *ps, const Tgt *tg, const RunCfg *cf
   }
   /* --- reference --- */
   if (want_ref) {
-    if (float_mode) compute_taint (ps, &rs.ioC);   /* before the interpreter overwrites in-place destinations */
+    if (float_mode) {
+      /* before the interpreter overwrites in-place destinations; in the caller's rounding mode, so that intermediate values
+       * (and with them which lanes become NaN or hit the flush-to-zero boundary) are the ones the executions saw */
+      unsigned old = __builtin_ia32_stmxcsr ();
+      __builtin_ia32_ldmxcsr ((old & ~0x6000u) | ((unsigned) cfg->mxcsr & 0x6000u));
+      compute_taint (ps, &rs.ioC);
+      __builtin_ia32_ldmxcsr (old);
+    }
     gen_interp (ps, &rs.ioC);
   }
   /* --- compare --- */
@@ -887,24 +896,24 @@ int main (int argc, char **argv)
   if (!strcmp (mode, "c01")) {
     report_mask = (1u << F_MISMATCH) | (1u << F_ACC) | (1u << F_FAULT_NATIVE) | (1u << F_FAULT_EMU) | (1u << F_CANARY_NATIVE) | (1u << F_CANARY_EMU) | (1u << F_ABI);
     mode_prop = "C01"; mode_profile = GP_INT | GP_ACC | GP_2D | GP_HINTS | GP_EXPLICIT_LS; mode_placements = 1 << PL_MID; want_ref = 0;
-    N_single = -1; N_pairs = vh_args.thorough ? -1 : 1500; N_random = vh_args.thorough ? 30000 : 3000; N_special = vh_args.thorough ? 3000 : 300;
+    N_single = -1; N_pairs = -1; N_random = vh_args.thorough ? 400000 : 40000; N_special = vh_args.thorough ? 40000 : 4000;
   } else if (!strcmp (mode, "c03")) {
     report_mask = (1u << F_FAULT_NATIVE) | (1u << F_FAULT_EMU) | (1u << F_CANARY_NATIVE) | (1u << F_CANARY_EMU) | (1u << F_SRC_CHANGED) | (1u << F_ABI);
     mode_prop = "C03"; mode_profile = GP_INT | GP_FLOAT | GP_ACC | GP_2D | GP_HINTS | GP_EXPLICIT_LS | GP_SPECIAL; mode_placements = (1 << PL_TRAIL) | (1 << PL_LEAD); mode_striped = 1; want_ref = 0;
-    N_single = -1; N_pairs = vh_args.thorough ? 4000 : 400; N_random = vh_args.thorough ? 20000 : 2000; N_special = vh_args.thorough ? 6000 : 600;
+    N_single = -1; N_pairs = vh_args.thorough ? -1 : 4000; N_random = vh_args.thorough ? 200000 : 20000; N_special = vh_args.thorough ? 60000 : 6000;
   } else if (!strcmp (mode, "c10")) {
     report_mask = (1u << F_FAULT_NATIVE) | (1u << F_CANARY_NATIVE) | (1u << F_ABI);
     mode_prop = "C10"; mode_profile = GP_INT | GP_FLOAT | GP_ACC | GP_2D | GP_HINTS | GP_EXPLICIT_LS | GP_SPECIAL; mode_placements = (1 << PL_MID) | (1 << PL_TRAIL); want_ref = 0;
-    N_single = -1; N_pairs = 300; N_random = vh_args.thorough ? 10000 : 1500; N_special = 200; N_regs = vh_args.thorough ? 6000 : 800;
+    N_single = -1; N_pairs = vh_args.thorough ? -1 : 3000; N_random = vh_args.thorough ? 150000 : 15000; N_special = vh_args.thorough ? 20000 : 2000; N_regs = vh_args.thorough ? 80000 : 8000;
   } else if (!strcmp (mode, "c18")) {
     report_mask = (1u << F_FLOAT) | (1u << F_NAN) | (1u << F_MASK) | (1u << F_DENORMAL) | (1u << F_FAULT_NATIVE) | (1u << F_ABI);
     mode_prop = "C18"; mode_profile = GP_FLOAT | GP_HINTS | GP_2D; mode_placements = (1 << PL_MID) | (1 << PL_TRAIL); want_ref = 1; float_mode = 1; finite_only = 0;
-    N_single = -1; N_pairs = -1; N_random = vh_args.thorough ? 20000 : 2500; N_special = 0;
+    N_single = -1; N_pairs = -1; N_random = vh_args.thorough ? 250000 : 25000; N_special = 0;
   } else if (!strcmp (mode, "c02x")) {
     /* multi-instruction programs: emulation vs reference interpreter */
     report_mask = (1u << F_REF_EMU) | (1u << F_FAULT_EMU) | (1u << F_CANARY_EMU);
     mode_prop = "C02"; mode_profile = GP_INT | GP_ACC | GP_2D | GP_EXPLICIT_LS | GP_SPECIAL; mode_placements = 1 << PL_MID; want_ref = 1;
-    N_single = -1; N_pairs = vh_args.thorough ? -1 : 2000; N_random = vh_args.thorough ? 20000 : 2500; N_special = vh_args.thorough ? 3000 : 400;
+    N_single = -1; N_pairs = vh_args.thorough ? -1 : 6000; N_random = vh_args.thorough ? 250000 : 25000; N_special = vh_args.thorough ? 40000 : 4000;
   } else if (!strcmp (mode, "c11x")) {
     /* every feature-flag subset of sse and mmx (64-bit): single-opcode programs must compute the same results */
     static char names[64][24]; int k = 0, i; unsigned m;
@@ -928,7 +937,7 @@ int main (int argc, char **argv)
     (void) i;
     report_mask = (1u << F_MISMATCH) | (1u << F_ACC) | (1u << F_FAULT_NATIVE) | (1u << F_CANARY_NATIVE) | (1u << F_ABI);
     mode_prop = "C11"; mode_profile = GP_INT | GP_ACC | GP_HINTS; mode_placements = 1 << PL_MID; want_ref = 0;
-    N_single = -1; N_pairs = vh_args.thorough ? 3000 : 300; N_random = vh_args.thorough ? 6000 : 600; N_special = 0;
+    N_single = -1; N_pairs = vh_args.thorough ? -1 : 1500; N_random = vh_args.thorough ? 60000 : 6000; N_special = 0;
   } else { fprintf (stderr, "unknown mode %s\n", mode); return 2; }
   if (vh_args.limit > 0) { N_random = vh_args.limit; }
 
